@@ -47,22 +47,19 @@ def tag_eq_by_code(a, b):
     return a == b
 
 
-def ob_encoder(v0: int, v1: int, v2: int, nv: int, q0: int, q1: int, q2: int, nq: int,
-               s0: float, s1: float, s2: float) -> bool:
+def ob_encoder(q0: int, q1: int, q2: int, nq: int, s0: float, s1: float, s2: float) -> bool:
     """
     pre: 0 <= s0 <= 1 and 0 <= s1 <= 1 and 0 <= s2 <= 1
     post: _
     """
+    NV = h.P("codes", 6)
+    vc = list(h.P("vocab"))  # concrete vocabulary of pairwise distinct tag codes
+    n = len(vc)
     try:
-        NV = h.P("codes", 12)
-        n = _pick(nv, 4)
-        m = _pick(nq, 4)
-        vc = [_pick(v, NV) for v in (v0, v1, v2)][:n]
+        m = _pick(nq, 1 + h.P("maxq", 3))
         qc = [_pick(v, NV) for v in (q0, q1, q2)][:m]
     except graph.Vacuous:
         return True
-    if len(set(vc)) != len(vc):
-        return True  # vocabulary of distinct tags
     vocab = [mk_tag(c) for c in vc]
     query = [mk_tag(c) for c in qc]
     scores = [s0, s1, s2][:m]
@@ -190,12 +187,24 @@ HASHABLE = ["Term", "Tag", "Feature", "Note", "SoundEvent", "SoundEventAnnotatio
 
 def plan():
     q = ("quick", "thorough")
-    obs = [
-        Ob("encoder-codes6", ob_encoder, "real", 1800, dict(codes=6), q, twins=("hit", "miss", "oov", "repeat"),
-           twin_timeout=300),
-        Ob("encoder-codes12", ob_encoder, "real", 14000, dict(codes=12), ("thorough",), twins=("hit",),
-           twin_timeout=300),
-    ]
+    import itertools
+
+    obs = []
+    quick_vocabs = [[], [0], [2, 0], [0, 1], [4, 0], [1, 0, 5], [3, 4, 2], [5, 2, 1]]
+    for vc in quick_vocabs:
+        tw = ("miss",) if not vc else ("hit", "miss", "oov", "repeat")
+        obs.append(Ob("encoder-vocab-%s" % ("".join(map(str, vc)) or "empty"), ob_encoder, "real", 900,
+                      dict(codes=6, vocab=vc, maxq=2 if len(vc) != 2 else 3), q, twins=tw, twin_timeout=200))
+        if len(vc) != 2:
+            obs.append(Ob("encoder-vocab-%s-q3" % ("".join(map(str, vc)) or "empty"), ob_encoder, "real", 1800,
+                          dict(codes=6, vocab=vc, maxq=3), ("thorough",), twins=("hit",) if vc else ("miss",),
+                          twin_timeout=200))
+    for k in (1, 2, 3):
+        for vc in itertools.permutations(range(6), k):
+            if list(vc) in quick_vocabs:
+                continue
+            obs.append(Ob("encoder-vocab-%s" % "".join(map(str, vc)), ob_encoder, "real", 900,
+                          dict(codes=6, vocab=list(vc)), ("thorough",), twins=("hit",), twin_timeout=200))
     for cls in HASHABLE:
         tw = ("equal", "unequal")
         if cls in ("Term", "Tag", "Feature"):
@@ -214,8 +223,8 @@ INFO = dict(
         "__hash__ of data.Term, Tag, Feature, Note, SoundEvent, SoundEventAnnotation, SoundEventPrediction, "
         "ClipPrediction against structural equality",
     ],
-    bounds="vocabularies of 0..3 pairwise distinct tags and query lists of 0..3 tags (repeats, out-of-vocabulary) "
-    "drawn from 6 (quick) / 12 (thorough) tag codes covering name x label x value combinations (same name different "
+    bounds="vocabularies of 0..3 pairwise distinct tags (8 of them quick, all 157 ordered ones thorough) and EVERY "
+    "query list of 0..3 tags (repeats, out-of-vocabulary) drawn from 6 tag codes covering name x label x value combinations (same name different "
     "label and vice versa); predicted scores symbolic in [0,1]; hash contract: every pair of instances of each of "
     "the eight classes over 2^4 x 2^4 (quick) / (3*3*3*2)^2 (thorough) field-atom combinations (feature values from {0.0, -0.0, 1.0, 1, 0.5})",
     trusted_base=["models/pyd.py (equality = class + field dict + extras)", "models/npl.py (zeros, item assignment)",
